@@ -11,7 +11,7 @@ CFG = {
     "rule": "C05: cases = `new W H` + ops on a PTY-less term.Model (hooks VerifNew/VerifFeed/VerifResize/VerifSnapshot); after EVERY op the "
             "full state snapshot (dims, cursor, lastCol, margins, modes, active screen, pen, charsets, saved cursors, tab stops, both grids "
             "with grapheme/width/style/wrapped) of the implementation is compared with the model's, and the state clause of C05 is evaluated "
-            "on the implementation's snapshot; panic/hang are outcomes. Streams: corpus (18 witnesses of fixed findings), grammar-generated "
+            "on the implementation's snapshot, and for every `resize` op the pen after it is compared with the pen before it (F112c); panic/hang are outcomes. Streams: corpus (19 witnesses of fixed findings), grammar-generated "
             "sequences (print narrow/wide/zero-width/combining, C0, ESC, every CSI final of csi() + unknown ones, parameters omitted/0/1/2/"
             "size-1/size/size+1/65535/65536/2^31/2^63-1/negative (overflowed), sub-parameters, modes, SGR incl. malformed, OSC (fixed and generated payloads: known/unknown/empty selectors, 0-5 separators, empty fields, NUL, non-ASCII, long, invalid base64), APC, DCS through the REAL ansi.DCS arm (finals, intermediates, parameters, sixel data around the 4096 limit, oversized raster attributes and repeat counts), resizes; "
             "sizes 1x1..80x24), a slice of the C06 bounded-exhaustive vocabulary sequences (after setup prefixes, `adopt` lines), raw byte fuzz through the real ansi parser. C05Draw: Vaxis on a fake console filled with a marker, emulator drawn into windows partly off-screen / nested / of a different size; oracle: every changed host cell and the cursor lie inside the window. C05Events: the REAL PTY goroutine loop on a real child process "
@@ -22,13 +22,19 @@ CFG = {
                      "the external sixel decoder (go-sixel) is a parameter: safety of the DCS arm is proved under the hypothesis DecoderTame "
                      "(no panic / unbounded allocation / unbounded loop on a payload that sixelTooLarge lets through), which the C05 stream "
                      "checks on the real library on every generated payload (counter dcs:DECODER-CRASH-WITHIN-LIMIT, note hypothesis_violations)",
-                     "Go int is modelled by unbounded Int: proved sound for 36 of the 40 translated bodies (Props/C05Overflow range_<fn>: every +/- "
-                     "stays within 2^62 on every good state with parameters clamped to 0..65535); for print, resize, cht, cbt it still rests on the "
-                     "bounds of the safety lemmas and the correspondence run",
+                     "Go int is modelled by unbounded Int: proved sound for 36 of the 51 translated bodies (Props/C05Overflow range_<fn>: every +/- "
+                     "stays within 2^62 on every good state with parameters clamped to 0..65535); for print, resize, cht, cbt and the round-3 bodies "
+                     "(sgr, osc, modes, decsc/decrc/ris: little or no arithmetic) it still rests on the bounds of the safety lemmas and the correspondence run",
                      "evalBody (the meaning of the translated bodies) fixes loop bounds, vt.width()/height() and the pen at loop entry and treats a "
-                     "return inside a final loop as break: justified syntactically (Body.wf, proved for every generated body), not against a Go semantics",
-                     "resize(): the reflow loop nest is a primitive of the translator (source text pinned there) whose meaning is the model's reflow",
-                     "not translated, transcribed by hand + correspondence: decsc/decrc/ris, the special arms of mode.go, sgr(), osc()",
+                     "return inside a final loop as break; function-level loops (forS over the snapshot of the old screen, forParams, forSgr walking the "
+                     "parameter list relative to i) run their body at function level; string locals of osc() follow Go block scoping: all justified "
+                     "syntactically (Body.wf incl. bndStable/sLoopWf/sgrLoopWf/paramLoopWf, proved for every generated body; checks in the translator), "
+                     "not against a Go semantics",
+                     "primitives of the statement language whose Go source is pinned by text in the translator: cutString (Stmt.cut = cutSemi; its source is "
+                     "the generated fact cutStringSrc, theorem cutString_pinned), the composite literals of decsc/decrc/ris (saved-cursor record, charsets, "
+                     "mode reset), the DEC-special translation and single shift of print, screen allocation and saved-cursor clamp of resize",
+                     "dispatchers csi()/esc()/c0()/update(): tied through the regenerated tables of Gen/TermModes.lean (the model matches on the generated "
+                     "arm enums), not through evalBody",
                      "C05Events: the LTS of the PTY goroutine is tied to the source by the extracted facts eventCap, postEventIsPlainSend, "
                      "loopArms, loopDrainsFirst and validated against the real loop by the C05Events stream"],
     "assumptions": ["terminal sizes between 1x1 and 65535x65535 (winsize fields are uint16; the property starts at 1x1)",
@@ -39,16 +45,19 @@ CFG = {
                   "every OSC payload, every DCS (under DecoderTame for sixel) and every resize, the model of the current code neither panics nor hangs "
                   "and re-establishes the invariant (emu_safe_step, dcs_safe), lifted to all histories by induction (emu_safe_run, session_safe). Draw "
                   "writes only inside the host window (draw_clipped). The PTY goroutine never blocks in postEvent for any number of events and any "
-                  "schedule (events_never_stall_current). The model functions ARE the Go bodies: for 40 functions (all of csi.go, c0.go, ind/nel/ri/hts, "
-                  "print, resize, scrollUp/Down) the body translated from the source on every run evaluates to the model function for all states "
-                  "(body_<fn>). The statement was false before the repairs F15-F20, F105a-i: Witness/F*.lean prove it from concrete inputs.",
+                  "schedule (events_never_stall_current). The model functions ARE the Go bodies: for ALL 51 control functions (all of csi.go, c0.go, "
+                  "esc.go incl. decsc/decrc/ris, mode.go sm/rm/decset/decrst/decrqm with every arm, sgr(), osc(), print, resize incl. the reflow loop "
+                  "nest, scrollUp/Down) the body translated from the source on every run evaluates to the model function for all states and all "
+                  "parameter lists / payloads (body_<fn>). A resize leaves the pen alone (resize_preserves_pen, resize_frame; F112c repaired). The "
+                  "statement was false before the repairs F15-F20, F105a-i: Witness/F*.lean prove it from concrete inputs.",
     "level_note": "Proved (all inputs, all sizes, all histories, all schedules): safety + invariant for the model; Draw clipping; event loop "
-                  "deadlock-freedom; model function = translated Go body for 40 functions (Gen/TermBodies.lean regenerated every run; unknown "
-                  "statements fail bodies_fully_recognised); no int64 overflow in 36 of them (range_<fn>); osc()/DCS/APC total for arbitrary "
-                  "payloads. Also tied by Gen/TermModes.lean (dispatch labels with their callee, mode tables, sgr labels, attribute bits, tab stops, "
+                  "deadlock-freedom; model function = translated Go body for all 51 control functions, no transcription-only residue (Gen/TermBodies.lean "
+                  "regenerated every run; unknown statements fail bodies_fully_recognised; all_generated_covered); no int64 overflow in 36 of them "
+                  "(range_<fn>); osc()/DCS/APC total for arbitrary payloads; pen, cursor shape, modes, tab stops, alternate grid, margins, saved-cursor "
+                  "clamps and LastColOk across a resize for every old state (resize_frame). Also tied by Gen/TermModes.lean (dispatch labels with their callee, mode tables, sgr labels, attribute bits, tab stops, "
                   "event channel, loop shape, DCS guards and size limit) and by the correspondence check (snapshot after every op, real DCS/OSC "
-                  "payloads). Validated by correspondence only: decsc/decrc/ris, mode special arms, sgr, osc bodies; the reflow loop nest of resize "
-                  "(pinned primitive). Hypotheses checked at run time: Width >= 0, CSI parameters non-empty, sixel decoder tame within the size limit.",
+                  "payloads). Validated by correspondence only: nothing of the control functions' bodies (the dispatch skeleton goes through generated "
+                  "tables); the pinned primitives listed in the trusted base. Hypotheses checked at run time: Width >= 0, CSI parameters non-empty, sixel decoder tame within the size limit.",
     "technique": "Lean 4 proof (invariant + per-operation safety lemmas + induction over histories; LTS invariant for the event loop)",
     "timeout": 1500,
 }
